@@ -10,6 +10,7 @@ print(t)
 for l in t.split('\n'):
     mm = re.match(r'== (\w+) exit=(\d+) :: (\d+) violations :: (.*)', l)
     if mm: meta.setdefault('checks_run', {})[mm.group(1)] = {'exit': int(mm.group(2)), 'violations': int(mm.group(3)), 'first': mm.group(4).strip()[:220]}
+meta['rechecked_on'] = os.environ.get('VERIF_REPO', '/repo') + ' @ ' + subprocess.run(['git', '-C', os.environ.get('VERIF_REPO', '/repo'), 'rev-parse', '--short', 'HEAD'], stdout=subprocess.PIPE).stdout.decode().strip()
 meta['detected_by'] = sorted(k for k, r in meta['checks_run'].items() if r['exit'] == 1)
 json.dump(meta, open(dst + '/meta.json', 'w'), indent=1, ensure_ascii=False)
 print('RECHECKED', name, 'detected_by', meta['detected_by'])
